@@ -94,6 +94,8 @@ func Classify(err error) (class, typ string) {
 		return model.EBadVariableText, typ
 	case verifapi.BadPortionParsingErr:
 		return model.EBadPortion, typ
+	case verifapi.InvalidAccountName:
+		return model.EInvalidAccountName, typ
 	case verifapi.ExperimentalFeature:
 		return model.EExperimental, typ
 	case verifapi.UnboundVariableErr:
